@@ -392,6 +392,49 @@ def run(chk):
         chk.case(("shared-executor", i))
     chk.count("shared_executor_configs", nshared)
 
+    # ---- 6. two experiments compiled in one session that yield a run with the SAME identifying columns (executor, suite, benchmark,
+    #         variables) but different settings at experiment / execution-entry level: each keeps its own effective settings
+    ntwo = 150 if tier == "quick" else 1500
+    pool = {"invocations": [2, 3, "4!", 7], "iterations": [2, "3!", 5], "warmup": [1, 2, "3!"], "max_invocation_time": [5, 60, -1],
+            "retries_after_failure": [1, 2, 3], "ignore_timeouts": [True, False], "execute_exclusively": [True, False],
+            "env": [{"WHO": "a"}, {"WHO": "b", "X": "1"}, {}]}
+
+    def strip(v):
+        return int(str(v).rstrip("!")) if isinstance(v, str) else v
+    for i in range(ntwo):
+        keys = rng.sample(sorted(pool), rng.randint(1, 3))
+        a = {k: rng.choice(pool[k]) for k in keys}
+        b = dict(a)
+        kdiff = rng.choice(keys)
+        b[kdiff] = rng.choice([v for v in pool[kdiff] if strip(v) != strip(a[kdiff])] or [None])
+        if b[kdiff] is None:
+            continue
+        at_entry = rng.random() < 0.4      # the differing settings sit on the execution entry instead of the experiment
+        def exp(settings):
+            if at_entry:
+                return {"executions": [{"E": dict({"suites": ["S"]}, **settings)}]}
+            return dict({"executions": [{"E": {"suites": ["S"]}}]}, **settings)
+        raw = {"executors": {"E": {"path": "/x", "executable": "h"}},
+               "benchmark_suites": {"S": {"gauge_adapter": "RebenchLog", "command": "c", "benchmarks": ["B"]}},
+               "experiments": {"XA": exp(a), "XB": exp(b)}}
+        try:
+            cnf = impl.configurator(copy.deepcopy(raw), [], exp_name=None, validate=False)
+            runs_ = list(cnf.get_runs())
+        except Exception as exc:  # noqa
+            chk.violation("C02 two experiments sharing a run compile", dict(config=raw), "compiles", repr(exc))
+            continue
+        def eff(run, k):
+            o = obs_run(run)
+            v = o[k]
+            return tuple(sorted(v.items())) if isinstance(v, dict) else v
+        got = sorted(repr(tuple(eff(r, k) for k in keys)) for r in runs_)
+        want = sorted(repr(tuple((tuple(sorted(s_[k].items())) if isinstance(s_[k], dict) else strip(s_[k])) for k in keys)) for s_ in (a, b))
+        if got != want:
+            chk.violation("C02 a run requested by two experiments with different settings keeps the effective settings of each of them",
+                          dict(config=raw, settings=keys), want, got)
+        chk.case(("two-experiments", i))
+    chk.count("two_experiment_configs", ntwo)
+
     # ---- model evaluation and comparison
     try:
         res = core.coq_eval(IMPORTS, exprs, chk.scratch, chunk=250)
